@@ -578,7 +578,12 @@ func genValueLines(r *core.Rand) string {
 	// further lines follow, it is not empty (a value whose first line is empty denotes
 	// a field with nothing on its own line; what the reader returns for that is pinned
 	// separately by the d822rw cases)
-	lines[0] = strings.TrimLeft(lines[0], " \t")
+	if first := strings.TrimLeft(lines[0], " \t"); first == "" || !r.Chance(1, 4) {
+		// (one in four keeps its indentation: such a first line is written on a continuation line
+		// of its own and comes back as it was - also when it is the only line and the caller built
+		// the value without a trailing newline)
+		lines[0] = first
+	}
 	if lines[0] == "" && len(lines) > 1 {
 		lines[0] = "x"
 	}
